@@ -14,6 +14,47 @@ pub struct Spec {
     pub value: J,
     /// entropy streams, one per textual spelling of `value`
     pub spellings: Vec<Vec<u8>>,
+    /// history: the member names and strings of `value` have first passed, in this process, through the
+    /// library's *other* canonical writer (the signing encoding), as artifact paths of a link that is signed
+    #[serde(default)]
+    pub signed_first: bool,
+}
+
+fn collect_strings(v: &J, out: &mut Vec<String>) {
+    match v {
+        J::Str(s) => out.push(s.clone()),
+        J::Arr(a) => a.iter().for_each(|x| collect_strings(x, out)),
+        J::Obj(m) => {
+            for (k, x) in m {
+                out.push(k.clone());
+                collect_strings(x, out);
+            }
+        }
+        _ => {}
+    }
+}
+
+/// Sign a link whose artifact paths, environment names and byproduct member names are `names`.
+fn sign_link_with_names(names: &[String]) {
+    use crate::gen::meta::*;
+    let d: Digests = [("sha256".to_string(), DIGEST_POOL_256[0].to_string())].into();
+    let mut link = LinkSpec {
+        name: names.first().cloned().unwrap_or_default(),
+        materials: Default::default(),
+        products: Default::default(),
+        env: Some(Default::default()),
+        byproducts: ByprodSpec { return_value: Some(0), stdout: Some(String::new()), stderr: Some(String::new()), other: Default::default() },
+        command: names.to_vec(),
+    };
+    for n in names.iter().take(12) {
+        link.materials.insert(n.clone(), d.clone());
+        link.products.insert(n.clone(), d.clone());
+        if let Some(e) = link.env.as_mut() {
+            e.insert(n.clone(), n.clone());
+        }
+    }
+    let sk = crate::gen::keys::private(&crate::gen::keys::KeySpec::Ed { seed: 5, pkcs8: true });
+    let _ = in_toto::models::Metablock::new(in_toto::models::MetadataWrapper::Link(link.to_lib()), &[&*sk]);
 }
 
 /// Exact integer value of a JSON number literal, if it is integer-valued.
@@ -114,7 +155,7 @@ impl Property for C10 {
         "Generated: recursive JSON values (depth<=5, width<=6; integers over i64::MIN..u64::MAX with boundary bias; keys and strings \
          from Unicode text biased to escape-relevant characters; separate class with float/exponent/out-of-range literals), each rendered in \
          2-4 textual spellings (member order, whitespace, escape spelling incl. \\uXXXX upper/lower, surrogate pairs, \\/). Enumerated: all \
-         1,112,064 Unicode scalar values, 64 per case, once as string content and once as object key. Oracle: every spelling -> Json::from_slice \
+         1,112,064 Unicode scalar values, 64 per case, once as string content and once as object key. History: in a third of the cases all member names and strings of the value first pass through the library's other canonical writer (the signing encoding) as artifact paths, environment names and command arguments of a link that is signed in the same process. Oracle: every spelling -> Json::from_slice \
          / from_reader -> Json::canonicalize gives identical bytes; an independent strict scanner accepts them (valid JSON, no whitespace, members \
          strictly increasing by code point, integers only) and decodes the original value; re-canonicalising the parsed output is idempotent; \
          documents with a non-integer number are rejected. Non-trivial: nesting>=2, or an object with >=2 members or a non-ASCII key, or an \
@@ -135,7 +176,7 @@ impl Property for C10 {
             5 => (json_value(false), proptest::collection::vec(entropy(), 2..5)),
             1 => (json_value(true), proptest::collection::vec(entropy(), 1..3)),
         ]
-        .prop_map(|(value, spellings)| Spec { value, spellings })
+        .prop_flat_map(|(value, spellings)| prop_oneof![2 => Just(false), 1 => Just(true)].prop_map(move |signed_first| Spec { value: value.clone(), spellings: spellings.clone(), signed_first }))
         .boxed()
     }
     fn enumerate(_tier: Tier, worker: usize, workers: usize) -> Box<dyn Iterator<Item = Spec>> {
@@ -149,7 +190,7 @@ impl Property for C10 {
                 (format!("k{}", s), J::Str(s.clone())),
                 ("a".into(), J::Arr(s.chars().map(|c| J::Str(c.to_string())).collect())),
             ]);
-            Some(Spec { value, spellings: vec![vec![], vec![4, 5, 3, 0, 1], vec![5, 4, 0, 3]] })
+            Some(Spec { value, spellings: vec![vec![], vec![4, 5, 3, 0, 1], vec![5, 4, 0, 3]], signed_first: i % 2 == 1 })
         }))
     }
     fn enumeration_exhaustive(_tier: Tier) -> Option<String> {
@@ -163,6 +204,14 @@ impl Property for C10 {
         let v = &spec.value;
         if nontrivial(v) {
             o.nontrivial(format!("{:?}", v));
+        }
+        if spec.signed_first {
+            let mut names = vec![];
+            collect_strings(v, &mut names);
+            if !names.is_empty() {
+                sign_link_with_names(&names);
+                o.class("strings-went-through-the-signing-encoding-first");
+            }
         }
         let texts: Vec<String> = spec.spellings.iter().map(|e| spelling(v, e)).collect();
         o.evals = texts.len().max(1) as u64;
